@@ -371,6 +371,16 @@ def space(tier, seed):
         for h in dag_masks(n):
             for p in (['as', 'sa', 'ss'] if n == 2 else ['asa', 'sas', 'ssa']):
                 gs.append({'n': n, 'loops': False, 'h': h, 'pos': p, 'dag': True})
+    # parts of speech that take no part in the counts (c, p, x, u) next to countable ones: 'amb' names node 0 and
+    # node n-1, so a distributed weight is divided by ALL synsets of the word, counted or not
+    for n in (2, 3):
+        for h in dag_masks(n):
+            for p in (['nc', 'cn', 'xu', 'vp'] if n == 2 else ['nnc', 'xnn', 'nun', 'pvx', 'cnc']):
+                # only graphs whose hypernym edges stay inside one part of speech: the weight tables are per part of
+                # speech and the property does not say where a cross-POS ancestor would be counted (the validator
+                # warns about such edges, W501; compute() raises KeyError on them - see DESIGN 9.5, wave 6)
+                if all(fold(p[i]) == fold(p[j]) for i, j in edges_of(h, pairs(n, False))):
+                    gs.append({'n': n, 'loops': False, 'h': h, 'pos': p, 'dag': True})
     if tier == 'thorough':
         for h in dag_masks(4):
             gs.append({'n': 4, 'loops': False, 'h': h, 'pos': 'asas', 'dag': True})
